@@ -281,6 +281,8 @@ def run_history(hist, workdir, tid, trunc):
                     m = np.array([fixed_to_float(x, 5) for x in op['v']]).reshape(3, 3)
                     if not (m - np.diag(np.diag(m))).any() and tid % 2 == 0:
                         m = np.diag(m).copy()
+                    elif m.ndim == 2 and tid % 3 == 1:
+                        m = np.asfortranarray(m) if tid % 2 else m.T.copy().T       # the same matrix in column-major layout
                     g.box_matrix = m
                 elif name == 'write':
                     r = op['v']
@@ -491,6 +493,8 @@ def random_file_trace(seed, tid, workdir, max_recs, trunc=True):
             g.position_format = (w, d)
         if boxm is not None:
             handed = np.array(boxm, float)
+            if handed.ndim == 2 and rng.random() < 0.4:
+                handed = np.asfortranarray(handed)
             g.box_matrix = handed
             handed[...] = 777.0          # the writer keeps the value it was given, not the caller's array
         how = rng.random()
